@@ -76,6 +76,7 @@ type Ev[C any] struct {
 	shard       int
 	seed        uint64
 	curFile     string
+	curF        *os.File
 	callStart   atomic.Int64
 }
 
@@ -221,6 +222,24 @@ func (e *Ev[C]) Violate(c C, msg string, name string) string {
 	}
 	e.Violations = append(e.Violations, Violation{path, msg})
 	return path
+}
+
+// writeCurrent overwrites the current-case file cheaply (one open file, no rename).
+func (e *Ev[C]) writeCurrent(c C) {
+	j, err := json.Marshal(c)
+	if err != nil {
+		j = []byte(fmt.Sprintf("%q", fmt.Sprintf("%+v", c)))
+	}
+	if e.curF == nil {
+		os.MkdirAll(filepath.Dir(e.curFile), 0o755)
+		f, err := os.OpenFile(e.curFile, os.O_RDWR|os.O_CREATE|os.O_TRUNC, 0o644)
+		if err != nil {
+			return
+		}
+		e.curF = f
+	}
+	e.curF.WriteAt(j, 0)
+	e.curF.Truncate(int64(len(j)))
 }
 
 func writeJSON(path string, v interface{}) {
@@ -392,7 +411,7 @@ func Main[C any](t *testing.T, s Spec[C]) {
 	}
 	call := func(c C) Verdict {
 		if s.Guard {
-			writeJSON(ev.curFile, c)
+			ev.writeCurrent(c)
 			ev.callStart.Store(time.Now().UnixNano())
 			defer ev.callStart.Store(0)
 		}
